@@ -113,6 +113,25 @@ def run(ck):
     ck.floor("CMP", "statement/proof zips in credential and request verification", nz, 4)
     narrowing_len_sweep(ck, c, re.compile(r"concordium_base::id::(chain|identity_provider|utils|identity_attributes_credentials)::"),
                         re.compile(r"(verify|verifier|validate|check)[a-z_0-9]*(::\{closure#\d+\})*$"))
+    # encode_tags refuses a tag that occurs twice - that is what keeps one attribute from being both revealed in the policy
+    # and committed to. The tags must therefore reach it WITH their multiplicity: straight from the key iterators of the
+    # maps (chained), never through a set/dedup that merges a duplicate before it can be refused
+    net = 0
+    for p0 in sorted(c.paths()):
+        if re.search(r"::tests?::|::test_", p0):
+            continue
+        for b in c.get_all(p0):
+            f = Fn(b)
+            for (bi, t) in f.calls(r"id::utils::encode_tags$"):
+                net += 1
+                it = (t["f"].get("gargs") or ["", ""])[-1]
+                merged = re.search(r"BTreeSet|HashSet|Unique|Dedup|IntoKeys|BTreeMap<|HashMap<|Vec<", it) is not None
+                o = f.origins(t["args"][0], deep=True)
+                merged = merged or has_call_origin(o, r"Iterator::collect$|::dedup$|Itertools::(unique|dedup)$|BTreeSet::<.*>::(insert|extend)$")
+                ck.ob("DEFUSE", f.path, "tags-encoded-with-their-multiplicity", not merged,
+                      "encode_tags receives the key iterators themselves (%s)" % re.sub(r"concordium_base::[a-z_:]+::", "", it)[:120] if not merged else
+                      "the tags pass through a collection that merges duplicates (%s) before encode_tags can refuse them: an attribute can be revealed and committed to at the same time" % it[:80], f.loc(bi))
+    ck.floor("DEFUSE", "encode_tags call sites", net, 5)
     conditional_transcript_sweep(ck, crate("rs", "concordium_base"), re.compile(r"concordium_base::id::(chain|identity_provider|utils|identity_attributes_credentials)::"), floor=3)
     eq_polarity_sweep(ck, crate("rs", "concordium_base"), re.compile(r"concordium_base::id::(chain|identity_provider|utils|identity_attributes_credentials)::"), re.compile(r"(verify|verifier|validate|check)[a-z_0-9]*(::\{closure#\d+\})*$"))
     rejecting_checks_floor(ck, crate("rs", "concordium_base"), re.compile(r"concordium_base::id::(chain|identity_provider|utils|identity_attributes_credentials)::"), re.compile(r"(verify|verifier|validate|check|extract_commit_message)[a-z_0-9]*(::\{closure#\d+\})*$"), "C08")
